@@ -457,3 +457,88 @@ func r4bits(c *core.Ctx) {
 }
 
 var _ = ssa.Value(nil)
+
+// R3.content: whatever length determinant precedes them, the octets of an OCTET STRING all reach the
+// wire, in order, octet-aligned: appendOctetString is folded for a set of (lower bound, upper bound,
+// length) cases - among them a length equal to a non-zero lower bound, the longest and the shortest
+// string of a constrained size, a fixed size, no bounds - with symbolic octets; the output has to end
+// with exactly those octets. (The length field itself is R3.strlen's and R3.len's.)
+func r3content(c *core.Ctx) {
+	if !c.Once("r3content") {
+		return
+	}
+	const R = "R3.content"
+	c.Rule(R, "appendOctetString: for a set of size constraints and lengths (a length equal to a non-zero lower bound among them) the string's octets end the output in order, octet-aligned")
+	fn := mustFunc(c, pAper, "perRawBitData.appendOctetString")
+	if len(fn.Params) != 5 {
+		c.SoftUndecided("%s: appendOctetString does not have the (pd, bytes, extensive, lb, ub) signature", R)
+		return
+	}
+	type cs struct{ lb, ub, n int64 } // lb/ub -1: absent
+	cases := []cs{{1, 150, 1}, {1, 150, 2}, {1, 150, 150}, {0, 150, 1}, {0, 255, 3}, {3, 3, 3}, {8, 8, 8}, {-1, -1, 5}, {0, 65535, 4}, {4, 4000, 4}, {2, 300, 300}}
+	u8 := types.Typ[types.Uint8]
+	bad := ""
+	done := 0
+	for _, k := range cases {
+		mem := core.NewMem()
+		mem.Store("p0.bytes", core.AVal{K: core.ASlice, Path: "out", Lo: 0, Len: 0, NonNil: true}, nil)
+		mem.Store("p0.bitsOffset", core.AVal{K: core.AInt, Bits: core.ConstBits(0, 64)}, nil)
+		symOctets(mem, "in", int(k.n), 0)
+		args := []core.AVal{{K: core.APtr, Path: "p0", NonNil: true}, {K: core.ASlice, Path: "in", Lo: 0, Len: int(k.n), NonNil: true}, {K: core.AInt, Bits: core.ConstBits(0, 1)}, core.NilArg(), core.NilArg()}
+		if k.lb >= 0 {
+			mem.Store("lbcell", core.AVal{K: core.AInt, Bits: core.ConstBits(uint64(k.lb), 64)}, nil)
+			args[3] = core.AVal{K: core.APtr, Path: "lbcell", NonNil: true}
+		}
+		if k.ub >= 0 {
+			mem.Store("ubcell", core.AVal{K: core.AInt, Bits: core.ConstBits(uint64(k.ub), 64)}, nil)
+			args[4] = core.AVal{K: core.APtr, Path: "ubcell", NonNil: true}
+		}
+		ex := core.NewExec()
+		ex.OnCall = traceOpaque
+		ex.Bounds = true
+		ex.MaxSteps = 4000000
+		outs, err := ex.Run(fn, args, mem)
+		o, one := oneLive(outs)
+		what := fmt.Sprintf("SIZE(%d..%d), %d octets", k.lb, k.ub, k.n)
+		if k.lb < 0 {
+			what = fmt.Sprintf("no size constraint, %d octets", k.n)
+		}
+		if err == nil && len(outs) > 0 && allPanicked(outs) {
+			bad = what + ": appendOctetString panics (" + lastCond(outs[0]) + ")"
+			break
+		}
+		if err != nil || !one || len(ex.Unsound) > 0 {
+			c.SoftUndecided("%s: appendOctetString could not be folded for %s (%v, %d outcomes, %v)", R, what, err, len(outs), ex.Unsound)
+			return
+		}
+		done++
+		if len(o.Ret) == 1 && o.Ret[0].NonNil {
+			bad = what + ": a string inside its size constraint is refused"
+			break
+		}
+		res := o.Mem.Load("p0.bytes", nil)
+		if res.K != core.ASlice || res.Lo < 0 || res.Len < int(k.n) {
+			bad = fmt.Sprintf("%s: the output has %s octets, fewer than the string", what, core.ArgName(res))
+			break
+		}
+		for i := 0; i < int(k.n); i++ {
+			got := o.Mem.Load(fmt.Sprintf("%s[%d]", res.Path, res.Lo+res.Len-int(k.n)+i), u8)
+			if got.K != core.AInt || !got.Bits.IsCopy(7, 0, fmt.Sprintf("in[%d]", i), 0) {
+				bad = fmt.Sprintf("%s: octet %d from the end of the output is %s, want octet %d of the string (the contents must close the encoding, in order)", what, int(k.n)-i, got, i)
+				break
+			}
+		}
+		if bad != "" {
+			break
+		}
+		if k.n > 2 || k.lb != k.ub {
+			bo := o.Mem.Load("p0.bitsOffset", types.Typ[types.Uint])
+			if kk, isK := bo.ConstVal(); !isK || kk != 0 {
+				bad = fmt.Sprintf("%s: the encoding does not end octet-aligned (bit offset %s)", what, bo)
+				break
+			}
+		}
+	}
+	c.Sites(done)
+	c.Check(bad == "", R, "aper.appendOctetString:contents", fn.Pos(), fmt.Sprintf("%d (constraint, length) cases, symbolic octets", done), "appendOctetString loses or misplaces the contents: %s", bad)
+}
